@@ -118,8 +118,10 @@ def _cmp_table(w, t2, ref, meta, oracle, what):
 def c02_json(w, ev, slot):
     import biom
     from biom import Table
-    from .probes_io import with_caller_zero
+    from .probes_io import with_caller_zero, big_slot
     src = with_caller_zero(w, slot, ev.get('salt', 0) // 7)
+    if src is slot:
+        src = big_slot(w, slot, ev.get('c', 0) >> 3) or slot
     ref = src.ref
     t = src.real
     a, b, c = ev.get('a', 0), ev.get('b', 0), ev.get('c', 0)
@@ -229,7 +231,10 @@ def c02_json(w, ev, slot):
                 t2 = biom.load_table(path)
                 os.unlink(path)
             else:
-                path = store.new_path(w, '.json.biom.gz')
+                # gzip content is recognised from the file itself, whatever
+                # the file is called
+                path = store.new_path(w, ('.json.biom.gz', '.biom', '.GZ',
+                                          '.json.gzip')[(b >> 3) % 4])
                 with gzip.open(path, 'wb') as f:
                     f.write(text.encode('utf8'))
                 t2 = biom.load_table(path)
@@ -272,6 +277,10 @@ def c03_tsv(w, ev, slot):
     if not all(tsv_safe_id(i) for ax in (0, 1) for i in ref.ids[ax]):
         return 'skip:ids_outside_domain'
     a, b, c = ev.get('a', 0), ev.get('b', 0), ev.get('c', 0)
+    from .probes_io import big_slot
+    big = big_slot(w, slot, c >> 3)
+    if big is not None:
+        ref, t = big.ref, big.real
     # optional exported category
     cat = None
     fmt = None
@@ -284,8 +293,11 @@ def c03_tsv(w, ev, slot):
             if all(isinstance(v, list) and all(isinstance(x, str) for x in v)
                    for v in vals):
                 texts = ['; '.join(v) for v in vals]
-                ok = all('; ' not in x and x == x.strip() and x
-                         for v in vals for x in v)
+                # an unnamed (blank) rank inside the list is fine, the list
+                # still reads back from 'a; ; c'
+                ok = all('; ' not in x and x == x.strip()
+                         for v in vals for x in v) and \
+                    all(v and v[0] and v[-1] for v in vals)
 
                 def fmt(v):
                     return '; '.join(v)
@@ -391,7 +403,8 @@ def c03_tsv(w, ev, slot):
                 t2 = biom.load_table(path)
                 os.unlink(path)
             else:
-                path = store.new_path(w, '.tsv.gz')
+                path = store.new_path(w, ('.tsv.gz', '.txt', '.GZ',
+                                          '.tsv.gzip')[(b >> 5) % 4])
                 with gzip.open(path, 'wb') as f:
                     f.write(text.encode('utf8'))
                 t2 = biom.load_table(path)
@@ -405,7 +418,7 @@ def c03_tsv(w, ev, slot):
             continue
         _cmp_tsv(w, t2, ref, cat, name, what)
     if (a >> 6) & 1 and ref.type is not None:
-        _tsv_via_convert(w, slot, ref, cat, name)
+        _tsv_via_convert(w, slot, ref, cat, name, t)
     return 'c03:ok'
 
 
@@ -428,7 +441,7 @@ def _cmp_tsv(w, t2, ref, cat, name, what):
                    'expected %r' % (what, s.md[0], want))
 
 
-def _tsv_via_convert(w, slot, ref, cat, name):
+def _tsv_via_convert(w, slot, ref, cat, name, t):
     """biom convert --to-tsv, then TSV -> JSON/HDF5 with
     --process-obs-metadata (in-process callbacks)"""
     import biom
@@ -447,7 +460,7 @@ def _tsv_via_convert(w, slot, ref, cat, name):
         # the click command itself: every step goes through files
         from biom.cli.table_converter import convert as cmd
         import datetime
-        tc = slot.real.copy()
+        tc = (t if t is not None else slot.real).copy()
         if cat is None:
             tc.del_metadata()
         else:
